@@ -15,7 +15,8 @@ ASSUMPTIONS = [
     "contract (tag_handling post-processing, doc_transforms) are covered by the bounded layer only",
 ]
 
-SOUP = list("*_`[]()<>!#-+=|~\\{}%\"'.:/ \n\t\r") + ["{%", "%}", "<!--", "-->", "```", "~~~", "\r\n", "\x0c", " ", "\x00", "é", "漢", "1.", "- ", "> "]
+SOUP = list("*_`[]()<>!#-+=|~\\{}%\"'.:/ \n\t\r") + ["{%", "%}", "<!--", "-->", "```", "~~~", "\r\n", "\x0c", " ", "\x00", "é", "漢", "1.", "- ", "> ",
+                                                       "\x00AC0\x00", "\x00AC1\x00", "\x00AC12\x00", "`c d`", "[l k](u)"]
 
 
 class Watchdog(Exception):
@@ -36,7 +37,7 @@ def bounded(tier, seed):
         s = "".join(rnd.choice(SOUP) for _ in range(rnd.choice((3, 10, 40, 120))))
         o = dict(width=rnd.choice((-1, 0, 1, 88, 10 ** 6)), semantic=rnd.random() < .5, cleanups=rnd.random() < .5,
                  smartquotes=rnd.random() < .5, ellipses=rnd.random() < .5, list_spacing=rnd.choice(list(ListSpacing)),
-                 plaintext=rnd.random() < .15)
+                 plaintext=rnd.random() < .3)
         signal.alarm(10)
         try:
             out = P.fmt(s, **o)
@@ -82,7 +83,7 @@ def bounded(tier, seed):
                 viol.append({"clause": "grows_gently", "input": {"text": "%r * k" % unit}, "got": {"times": ts, "exponent": exp}})
     return {"evaluations": evals, "distinct_nontrivial": len(distinct), "violations": viol, "pumped_exponents": pumped,
             "samples": [{"soup": "".join(rnd.choice(SOUP) for _ in range(20))}],
-            "rule": "seeded Unicode soup (unbalanced delimiters, control characters, CR/LF mixes, NUL, U+2028) of length 3-120 x "
+            "rule": "seeded Unicode soup (unbalanced delimiters, control characters, CR/LF mixes, NUL, U+2028, look-alikes of the internal placeholder tokens) of length 3-120 x "
                     "seeded option sets incl. widths -1/0/1/88/10^6 under a 10 s watchdog: returns, ends in a newline (Markdown "
                     "mode), introduces no NUL; code-block blank lines carry no trailing spaces; thorough: pumped families with a "
                     "fitted growth exponent; distinct = distinct outputs",
@@ -91,3 +92,113 @@ def bounded(tier, seed):
 
 def witnesses():
     return {"C12-empty-output": P.fmt("-\t\r\n", width=88) == ""}
+
+
+# ---- ST obligations: every regex of the package is free of nested unbounded quantifiers -------------------------------
+def package_patterns():
+    """{(module, name): (pattern text, flags)}: compiled module-level patterns, AtomicPattern records and literal
+    re.compile / re.sub ... pattern arguments in the source (patterns assembled at run time inside functions are not seen)."""
+    import ast
+    import glob
+    import importlib
+    import inspect
+    import os
+    import re
+    import flowmark
+    root = flowmark.__path__[0]
+    pats = {}
+    for f in sorted(glob.glob(root + "/**/*.py", recursive=True)):
+        name = ("flowmark." + os.path.relpath(f, root)[:-3].replace("/", ".")).removesuffix(".__init__")
+        if name.endswith("__main__"):
+            continue
+        try:
+            mod = importlib.import_module(name)
+        except Exception:
+            continue
+        for k, v in vars(mod).items():
+            if isinstance(v, re.Pattern) and isinstance(v.pattern, str):
+                pats[(name, k)] = (v.pattern, v.flags)
+            elif type(v).__name__ == "AtomicPattern":
+                pats[(name, k)] = (v.pattern, 0)
+            elif type(v).__module__.startswith("regex") and hasattr(v, "pattern"):
+                pats[(name, k)] = (v.pattern, 0)
+        try:
+            tree = ast.parse(inspect.getsource(mod))
+        except Exception:
+            continue
+        for n in ast.walk(tree):
+            if isinstance(n, ast.Call) and isinstance(n.func, ast.Attribute) and isinstance(n.func.value, ast.Name) \
+                    and n.func.value.id in ("re", "regex") and n.args and isinstance(n.args[0], ast.Constant) \
+                    and isinstance(n.args[0].value, str) and n.func.attr in ("compile", "sub", "match", "search", "fullmatch",
+                                                                              "split", "findall", "finditer", "subn"):
+                pats.setdefault((name, "literal@%s" % n.func.attr + ":" + n.args[0].value[:24]), (n.args[0].value, 0))
+    return pats
+
+
+def _parse_pattern(p, flags):
+    import re
+    import re._parser as sp
+    p2 = re.sub(r"\\[pP]\{[^}]*\}", r"\\w", p)       # `regex`-module classes: the structure is what matters here
+    return sp.parse(p2, flags & (re.I | re.M | re.S | re.X | re.A))
+
+
+def static_obligations(tier):
+    from vfcore import relang
+    recs = []
+    for (mod, name), (p, flags) in sorted(package_patterns().items()):
+        oid = "regex/%s:%s/no_nested_unbounded_quantifier" % (mod.replace("flowmark.", ""), name)
+        try:
+            hz = relang.nested_quantifier_hazards(_parse_pattern(p, flags))
+        except Exception as e:
+            recs.append({"oid": oid, "status": "unknown", "src": p[:200], "detail": "pattern not parsed: %r" % e})
+            continue
+        recs.append({"oid": oid, "status": "refuted" if hz else "discharged",
+                     "src": "no unbounded repeat has a body alternative that is itself an unbounded repeat (up to nullable "
+                            "neighbours): matching cannot split one run over iterations in exponentially many ways",
+                     "detail": ("%s in %r" % (hz[0][0], p[:300])) if hz else p[:120]})
+    return recs
+
+
+def replay(rec):
+    """failed regex obligation -> pumped input on which the real formatter does not return in time"""
+    if not rec.get("oid", "").startswith("regex/"):
+        return None
+    import re
+    from vfcore import relang
+    key = rec["oid"][len("regex/"):].rsplit("/", 1)[0]
+    for (mod, name), (p, flags) in package_patterns().items():
+        if "%s:%s" % (mod.replace("flowmark.", ""), name) != key:
+            continue
+        p2 = re.sub(r"\\[pP]\{[^}]*\}", r"\\w", p)
+        signal.signal(signal.SIGALRM, _alarm)
+        for fam in relang.attack_strings(p2, flags & (re.I | re.M | re.S | re.X | re.A), ks=(14, 18, 22, 40)):
+            ts = []
+            for s in fam[:3]:
+                t0 = time.time()
+                signal.alarm(20)
+                try:
+                    re.search(p2, s, flags & (re.I | re.M | re.S | re.X | re.A))
+                except Watchdog:
+                    pass
+                finally:
+                    signal.alarm(0)
+                ts.append(max(time.time() - t0, 1e-5))
+            if not (ts[2] > 8 * ts[1] > 64 * ts[0] * 0.5 and ts[2] > 0.02):
+                continue
+            for o in (dict(width=88), dict(width=88, plaintext=True)):
+                signal.alarm(8)
+                t0 = time.time()
+                try:
+                    P.fmt(fam[3] + "\n", **o)
+                    done = True
+                except Watchdog:
+                    done = False
+                finally:
+                    signal.alarm(0)
+                if not done:
+                    return {"reproduced": True, "input": {"text": fam[3] + "\n", "options": o},
+                            "got": "reformat_text did not return within 8 s on %d characters; pattern alone: %s s for %s chars"
+                                   % (len(fam[3]), [round(t, 4) for t in ts], [len(s) for s in fam[:3]]),
+                            "expected": "terminates, time growing gently"}
+        return {"reproduced": False}
+    return {"reproduced": False}
